@@ -1020,6 +1020,8 @@ MAX_STR_DIGITS = 4300
 
 def builtin_int(it, args, kwargs):
     ctx = it.ctx
+    if len(args) != 1 or kwargs:
+        raise Unsupported('int() with a base / keyword arguments')
     v = args[0]
     if isinstance(v, VBox):
         v = unbox_choose(ctx, v)
@@ -1067,6 +1069,8 @@ def builtin_sorted(it, args, kwargs):
             z3.And(j >= 0, j < L_len(sq)),
             z3.Select(args[0].member, L_at(sq, j))))
         return ctx.alloc(SeqCell(sq, 'str'))
+    if len(args) != 1 or set(kwargs) - {'key'}:
+        raise Unsupported('sorted() with arguments other than key=')
     items = iter_concrete(it, args[0])
     if items is None:
         raise Unsupported('sorted of symbolic sequence')
@@ -1087,6 +1091,8 @@ def builtin_sorted(it, args, kwargs):
 
 def builtin_minmax(it, fn, args, kwargs):
     ctx = it.ctx
+    if kwargs:
+        raise Unsupported('min/max with keyword arguments')
     items = iter_concrete(it, args[0]) if len(args) == 1 else list(args)
     if items is None:
         raise Unsupported('min/max of symbolic sequence')
@@ -1135,6 +1141,8 @@ class VJson(V):
 
 def json_loads(it, args, kwargs):
     ctx = it.ctx
+    if len(args) != 1 or kwargs:
+        raise Unsupported('json.loads with extra arguments')
     s = args[0]
     if isinstance(s, VBox):
         s = unbox_choose(ctx, s)
@@ -1170,10 +1178,22 @@ RE_MAXREPEAT = 4294967295
 def re_compile(it, args, kwargs):
     p = args[0]
     ctx = it.ctx
+    flags = 0
+    fl = args[1] if len(args) > 1 else kwargs.get('flags')
+    if fl is not None:
+        try:
+            flags = _const_int(fl)
+        except Exception:
+            flags = None
+        if flags is None:
+            raise Unsupported('re.compile with symbolic flags')
     origin = ctx.ghost.get('fmt_origin', {}).get(
         p.e.get_id()) if isinstance(p, VStr) else None
     if origin and origin[0] == '^ {1,%d}' and len(origin[1]) == 1 and \
             isinstance(origin[1][0], (VInt, VBool)):
+        if flags:
+            raise Unsupported('indentation pattern compiled with flags %r'
+                              % (flags,))
         # the indentation pattern  ^ {1,N}  with a symbolic N (A-re):
         # re.error when N < 1, OverflowError when N >= MAXREPEAT
         n = as_int(origin[1][0])
@@ -1185,7 +1205,8 @@ def re_compile(it, args, kwargs):
     if is_concrete_str(p):
         s = concrete_str(p)
         try:
-            return VConc(re.compile(s.encode('latin-1') if p.b else s))
+            return VConc(re.compile(s.encode('latin-1') if p.b else s,
+                                    flags))
         except re.error:
             it.raise_(re.error)
     return VConc(('symbolic-pattern', p))
